@@ -311,9 +311,12 @@ class Project(MessageHandler):
 
     def schedule(self) -> bool:
         # Extend project end if tasks require more time
+        if getattr(self, "_declaredEnd", None) is None:
+            self._declaredEnd = self.attributes.get("end")
         self._extendProjectEndIfNeeded()
 
         self.initScoreboards()
+        scenario_horizons: bool = self.scenarios.items() > 1 and self._declaredEnd is not None
 
         for p in [self.accounts, self.shifts, self.resources, self.tasks]:
             p.index()
@@ -328,6 +331,13 @@ class Project(MessageHandler):
                 continue
 
             scIdx: int = sc.sequenceNo - 1
+
+            # Each scenario is scheduled as if it were the only one: size the slot grid
+            # for this scenario's efforts, starting again from the declared end
+            if scenario_horizons:
+                self.attributes["end"] = self._declaredEnd
+                self._extendProjectEndIfNeeded(scIdx)
+                self.initScoreboards()
 
             # Propagate inherited values
             AttributeBase.setMode(1)
@@ -701,7 +711,7 @@ class Project(MessageHandler):
             if pred:
                 self._markTaskALAP(pred, scIdx, processed, reverse_deps)
 
-    def _extendProjectEndIfNeeded(self) -> None:
+    def _extendProjectEndIfNeeded(self, scIdx: int = 0) -> None:
         """
         Extend project end date if tasks require more time than the specified duration.
         This prevents tasks from being truncated at the project boundary.
@@ -719,7 +729,7 @@ class Project(MessageHandler):
                 task_count += 1
                 # Get effort - stored in hours, convert to seconds
                 try:
-                    effort = task.get("effort", 0)
+                    effort = task.get("effort", scIdx)
                     if effort:
                         if isinstance(effort, (int, float)):
                             # Effort is in hours, convert to seconds
@@ -729,9 +739,9 @@ class Project(MessageHandler):
                 except Exception:
                     pass
 
-                # Account for dependency gaps - use task.get() with scenario index 0
+                # Account for dependency gaps of this scenario
                 try:
-                    deps = task.get("depends", 0) or []
+                    deps = task.get("depends", scIdx) or []
                     for dep in deps:
                         gap: Optional[Any] = None
                         if isinstance(dep, dict):
